@@ -135,11 +135,16 @@ fn build_views(case: &Case, n: usize, alg: u32, key_seed: u64) -> Vec<View> {
             }
             Dev::AggId { agg, to } => {
                 let j = *agg as usize % n;
-                views[j].id = match to % 5 {
+                views[j].id = match to % 9 {
                     0 => (j + 1) % n,
                     1 => (j + n - 1) % n,
                     2 => n,
                     3 => 255,
+                    // identifiers no instance has that alias the true one in a narrower integer
+                    5 => 256 + j,
+                    6 => 65536 + j,
+                    7 => (1usize << 32) + j,
+                    8 => usize::MAX - 255 + j,
                     _ => (*to as usize) % (n + 1),
                 };
             }
